@@ -1,5 +1,6 @@
 """C17 - constructing a fraction from floating point (partial: prefix + bounded unrolling of the mediant loop)."""
 import z3
+import os
 from .common import *
 from . import fpx
 from vlib import ex as X
@@ -33,6 +34,10 @@ def mk(name, T, F, family, K):
             # exact ratios k/4 with |x| < 4: the search provably needs at most 3 mediant steps, so the unwinding bound
             # is part of the claim (terminates=True: a feasible path beyond it is replayed on the real build)
             c = [z3.Or(*[z3.fpEQ(x, z3.FPVal(k / 4.0, x.sort())) for k in range(-15, 16)])]
+        elif family == "tiny":
+            # 0 < x <= 2^-8: three plain steps towards 0 (1/2, 1/3, 1/4), then the accelerated step runs into the
+            # denominator clamp - the only route to that code within a small unrolling bound
+            c = [fpx.finite(x), z3.fpGEQ(w, fpx.pow2(-12)), z3.fpLEQ(w, fpx.pow2(-8))]
         else:
             c.append(z3.Not(z3.fpEQ(z3.fpRoundToIntegral(fpx.RTZ, w), w)))
         return z3.And(*c)
@@ -78,6 +83,8 @@ def kernels(opts):
     tier = opts["tier"]
     ks = [mk("K0", "i8", "f32", "integer", 3), mk("K1", "i16", "f32", "integer", 3), mk("K2", "i16", "f64", "integer", 3),
           mk("K3", "i8", "f32", "fractional", 2 if tier == "quick" else 4), mk("Q0", "i8", "f32", "quarters", 3)]
+    if os.environ.get("VERIF_C17_TINY"):
+        ks.append(mk("T0", "i8", "f32", "tiny", 5))
     if tier != "quick":
         # (int32 from double: the only place where numerator + 1 is not promoted; ~1-6 min depending on load: thorough)
         ks.append(mk("K5", "i32", "f64", "integer", 3))
